@@ -634,6 +634,10 @@ func c12Derived(c *Ctx) {
 		{"copy/dictionary-stored-in-a-list", "令原表 = 【“甲” = 1】\n令册 = 【】\n以册（后增：原表）\n以原表#“甲”（自增：5）\n输出【册，原表】\n", `list[list[dict["甲"=num(1)]],dict["甲"=num(6)]]`},
 		{"copy/dictionary-as-a-literal-item", "令原表 = 【“甲” = 1】\n令外 = 【“内” = 原表，“数” = 原表#“甲”】\n以原表#“甲”（自增：5）\n输出【外，原表】\n", `list[dict["内"=dict["甲"=num(1)],"数"=num(1)],dict["甲"=num(6)]]`},
 		{"copy/values-of-a-copied-dictionary-in-a-loop", "令原表 = 【“甲” = 1，“乙” = 2】\n令副本 = 原表\n以键、值遍历副本之所有值：\n\t以值（自增：100）\n输出【原表，副本】\n", `list[dict["甲"=num(1),"乙"=num(2)],dict["甲"=num(1),"乙"=num(2)]]`},
+		{"write/value-expression-shortens-the-list", "令甲 = 【1，2，3】\n甲#{甲之长度} = 以甲（右移）\n输出【甲，甲之长度】\n", "list[list[num(1),num(3)],num(2)]"},
+		{"write/value-expression-rebinds-the-list", "令乙 = 【1，2】\n如何重置？\n\t乙 = 【4，5，6】\n\t输出 0\n乙#1 = （重置）\n输出【乙#1，乙】\n", "list[num(0),list[num(0),num(5),num(6)]]"},
+		{"write/value-expression-rebinds-the-dictionary", "令丁 = 【“a” = 1】\n如何换新？\n\t丁 = 【“z” = 0】\n\t输出 3\n丁#“c” = （换新）\n输出【丁#“c”，丁之所有索引，丁之长度】\n", `list[num(3),list[text("z"),text("c")],num(2)]`},
+		{"write/value-expression-grows-the-list", "令甲 = 【1】\n甲#2 = 以甲（后增：7）#1\n输出 甲\n", "list[num(1),num(1)]"},
 		{"keys/changed-in-loop", "令典 = 【“a” = 1，“b” = 2】\n令键 = 典之所有索引\n以键（后增：“c”）\n输出【典之所有索引，典之长度】\n", `list[list[text("a"),text("b")],num(2)]`},
 	}
 	reqs := []Req{}
